@@ -35,6 +35,8 @@ class Contract:
         self.allocates = d.get("allocates", True)
         self.ghost_pre = d.get("ghost_pre", {})        # name -> expr, evaluated in the pre-state, usable in ensures
         self.param_assume = d.get("assume_params", True)
+        self.for_callers = d.get("for_callers")          # variant used only when called from these functions (interface view)
+        self.virtual = d.get("virtual", False)          # abstract contract used for every override (behavioural subtyping assumed)
 
     def clause_props(self, cname):
         """Property ids a clause is tagged with: 'C06.pad' -> ('C06',); 'C02+C03.x' -> both."""
@@ -415,8 +417,11 @@ class ContractMixin:
         if "result" in c.sorts:
             want = c.sorts["result"]
             upcast = (want.startswith("ref:") and payload.kind.startswith("ref:") and self.is_subclass(payload.kind[4:], want[4:]))
+            if (want.startswith("list:ref:") and payload.kind.startswith("list:ref:") and self.is_subclass(payload.kind[9:], want[9:])):
+                upcast = True     # a fresh list of a subclass is a list of the base class for every reader
             if upcast:
                 extra["result"] = SRef(payload.t, want)
+                payload = extra["result"]
             if want != "any" and payload.kind != want and not upcast and not (want.startswith("optref:") and (isinstance(payload, SNone) or payload.kind == want[7:])):
                 # a result of another static kind than the contract declares
                 if not (want == "any"):
@@ -461,6 +466,9 @@ class ContractMixin:
         """modifies entries -> (whole-component keys, {key: [ref terms]} single locations)"""
         whole, locs = set(), {}
         for m in c.modifies:
+            if m == "*":
+                whole.add("*")
+                continue
             if m.startswith("@"):       # location: '@self._blocks' (attribute of an object) or '@list(self._blocks)'
                 expr = m[1:]
                 node = self.parse_spec(expr)
@@ -485,6 +493,8 @@ class ContractMixin:
         oheap, oenv, oalloc = s.old
         changed = s.heap.changed_keys(oheap)
         whole, locs = self.parse_footprint(c, s, fr)
+        if "*" in whole:
+            return
         for kx in sorted(changed, key=str):
             if kx in whole or kx[0] in ("cls",) or kx[0] == "g" and kx[1].startswith("cursor"):
                 continue
@@ -504,6 +514,8 @@ class ContractMixin:
     def apply_contract(self, fi, c, args, kwargs, st, fr, k):
         from .symex import Frame, EngineError, Raised
         fr_c = Frame(fi, fi.module, fi.cls)
+        if c.trusted:
+            self.trusted_used.add(f"assumed contract (interface, not verified here): {c.qualname}: {c.doc.splitlines()[0] if c.doc else ''}")
 
         def bound(s, env):
             # typed views of the arguments as the callee's contract declares them
@@ -524,6 +536,10 @@ class ContractMixin:
             # 2. havoc the footprint
             s.old = (pre_heap, dict(env), pre_alloc)
             whole, locs = self.parse_footprint(c, s, fr_c)
+            if "*" in whole:
+                keep = {kx for kx in s.heap.comps if kx[0] == "g"}     # ghost state changes only when listed explicitly
+                s.heap.havoc_all(keep)
+                whole = {kx for kx in whole if kx != "*"}
             for kx in whole:
                 s.heap.havoc(kx)
             for kx, refs in locs.items():
